@@ -131,6 +131,31 @@ def run (op impl : String) : Ans :=
       { model := renderSt fin n, verdict := verdict,
         tags := [s!"reloads{min reloads 3}", s!"reqs{min n 4}"] ++ (if failed > 0 then ["failed-reload"] else []) ++
           (if reloads > 0 && inflight then ["nt"] else []) }
+  | ["mod", name, body] =>
+    -- module data: R<v> reload, T<i> take, U<i> use, H whole request; the value printed names the version that answered
+    let parsed := (body.splitOn ",").mapM fun st =>
+      if st == "H" then some MStep.handle
+      else match st.toList with
+        | c :: rest => (String.ofList rest).toNat?.bind fun n =>
+            if c == 'R' then some (MStep.reload n false) else if c == 'T' then some (MStep.take n)
+            else if c == 'U' then some (MStep.use n) else none
+        | [] => none
+    match parsed with
+    | none => { model := "bad-op", verdict := "skip" }
+    | some steps =>
+      let fin := mrun steps
+      let showV := fun (v : Option Nat) => match v with
+        | some n => if name == "geo" then "ok" else toString n
+        | none => "err"
+      let model := if fin.out.isEmpty then "-" else ",".intercalate (fin.out.map fun o => o.1 ++ "=" ++ showV o.2.2)
+      -- oracle on the implementation's own line: every answer is the one of the version taken (never err / newer data)
+      let expect := fin.out.map fun o => o.1 ++ "=" ++ (if name == "geo" then "ok" else toString o.2.1)
+      let got := if impl == "-" then [] else impl.splitOn ","
+      let midReload := steps.any fun s => match s with | .use _ => true | _ => false
+      { model := model,
+        verdict := if impl.startsWith "PANIC" then "FAIL:panic-module-" ++ name
+                   else if got != expect then "FAIL:module-inflight-" ++ name else "ok",
+        tags := ["mod", "mod-" ++ name] ++ (if midReload then ["nt"] else []) }
   | ["balreload", body] =>
     -- balancer-table lock domain: g good reload, m gslb cluster missing from the cluster table (fails under the lock),
     -- w gslb file rejected by the loader (before the lock), l Lookup; every call returns — none may HANG
